@@ -437,6 +437,10 @@ func (s *Server) exec(st *connState, args [][]byte) string {
 		return "+OK\r\n"
 	case "script":
 		if argc >= 3 && strings.ToLower(string(args[1])) == "load" {
+			// FailKeys["\x00script"]: the target refuses every SCRIPT LOAD
+			if e, ok := s.Opts.FailKeys["\x00script"]; ok {
+				return "-" + e + "\r\n"
+			}
 			s.Scripts = append(s.Scripts, append([]byte{}, args[2]...))
 		}
 		return bulk([]byte("da39a3ee5e6b4b0d3255bfef95601890afd80709"))
